@@ -11,13 +11,24 @@ import (
 
 // inherit re-runs another property's driver on the same program and records its failures under prop:
 // the obligations of `from` are hypotheses of `prop`.
-func inherit(p *load.Prog, r *report.Report, prop, from string, driver func(*load.Prog, *report.Report)) {
+func inherit(p *load.Prog, r *report.Report, prop, from string, driver func(*load.Prog, *report.Report), onlyRules ...string) {
 	sub := report.New(from, r.Tier, "proof", r.VerifDir)
 	sub.ControlsDir = r.ControlsDir
 	sub.Quiet = true
 	driver(p, sub)
 	bad := 0
 	for _, o := range sub.Obls {
+		if len(onlyRules) > 0 {
+			keep := false
+			for _, pr := range onlyRules {
+				if strings.HasPrefix(o.Rule, pr) {
+					keep = true
+				}
+			}
+			if !keep {
+				continue
+			}
+		}
 		if o.Status != report.Discharged {
 			bad++
 			if bad <= 6 {
